@@ -63,17 +63,19 @@ impl Abs {
         }
     }
     fn same(&self, o: &Abs) -> bool {
+        // loop-free (MAXFR = 8): keeps the unwinding bound of harnesses independent of the monitor
         if self.phase != o.phase || self.n != o.n {
             return false;
         }
-        let mut i = 0;
-        while i < MAXFR {
-            if i < self.n && self.fr[i] != o.fr[i] {
-                return false;
-            }
-            i += 1;
-        }
-        true
+        let n = self.n;
+        (n <= 0 || self.fr[0] == o.fr[0])
+            && (n <= 1 || self.fr[1] == o.fr[1])
+            && (n <= 2 || self.fr[2] == o.fr[2])
+            && (n <= 3 || self.fr[3] == o.fr[3])
+            && (n <= 4 || self.fr[4] == o.fr[4])
+            && (n <= 5 || self.fr[5] == o.fr[5])
+            && (n <= 6 || self.fr[6] == o.fr[6])
+            && (n <= 7 || self.fr[7] == o.fr[7])
     }
 }
 fn receive(f: Fr) -> Option<Fr> {
@@ -416,15 +418,13 @@ step_harness!(c02_step_block_node_tags_d2, State::BlockNode, 2, 3, true);
 // ------------------------------------------------------------------------------------------------
 use crate::scanner::verif_harness::DIRECTIVES;
 
-fn scenario_parser<'a>(kinds: &[u8], state: State) -> (Parser<'a, StrInput<'a>>, [u8; MAXTOK]) {
+fn scenario_parser<'a>(kinds: &[u8], payloads: &[u8], state: State) -> (Parser<'a, StrInput<'a>>, [u8; MAXTOK]) {
     let mut k = [0u8; MAXTOK];
     let mut payload = [0u8; MAXTOK];
     let mut i = 0;
     while i < kinds.len() {
         k[i] = kinds[i];
-        let q: u8 = kani::any();
-        kani::assume(q < 4);
-        payload[i] = q;
+        payload[i] = if i < payloads.len() { payloads[i] } else { 0 };
         i += 1;
     }
     let mut p = Parser::new(StrInput::new(""));
@@ -459,8 +459,8 @@ fn ref_tags(before: [u8; 4], kinds: &[u8], payload: &[u8; MAXTOK]) -> Option<[u8
     Some(t)
 }
 
-fn doc_start_scenario(kinds: &[u8], implicit: bool) {
-    let (mut p, payload) = scenario_parser(kinds, if implicit { State::ImplicitDocumentStart } else { State::DocumentStart });
+fn doc_start_scenario(kinds: &[u8], payloads: &[u8], implicit: bool) {
+    let (mut p, payload) = scenario_parser(kinds, payloads, if implicit { State::ImplicitDocumentStart } else { State::DocumentStart });
     // table left by earlier documents: only possible with keep_tags (document_end clears otherwise)
     let mut before = [0u8; 4];
     if p.keep_tags {
@@ -528,32 +528,37 @@ fn doc_start_scenario(kinds: &[u8], implicit: bool) {
 }
 
 macro_rules! doc_start_harness {
-    ($name:ident, $implicit:expr, $($k:expr),+) => {
+    ($name:ident, $implicit:expr, [$($k:expr),+], [$($p:expr),*]) => {
         #[kani::proof]
         #[kani::unwind(7)]
         pub fn $name() {
-            doc_start_scenario(&[$($k),+], $implicit);
+            doc_start_scenario(&[$($k),+], &[$($p),*], $implicit);
         }
     };
 }
-doc_start_harness!(c16_docstart_stream_end, true, tk::STREAM_END);
-doc_start_harness!(c16_docstart_skip_doc_ends, false, tk::DOCUMENT_END, tk::DOCUMENT_END, tk::STREAM_END);
-doc_start_harness!(c16_docstart_implicit_scalar, true, tk::SCALAR);
-doc_start_harness!(c16_docstart_explicit, true, tk::DOCUMENT_START, tk::SCALAR);
-doc_start_harness!(c16_docstart_explicit_required_missing, false, tk::SCALAR);
-doc_start_harness!(c16_docstart_version, true, tk::VERSION_DIRECTIVE, tk::DOCUMENT_START);
-doc_start_harness!(c16_docstart_two_versions, true, tk::VERSION_DIRECTIVE, tk::VERSION_DIRECTIVE, tk::DOCUMENT_START);
-doc_start_harness!(c16_docstart_two_tags, true, tk::TAG_DIRECTIVE, tk::TAG_DIRECTIVE, tk::DOCUMENT_START);
-doc_start_harness!(c16_docstart_tag_then_version, false, tk::TAG_DIRECTIVE, tk::VERSION_DIRECTIVE, tk::DOCUMENT_START);
-doc_start_harness!(c16_docstart_three_tags, true, tk::TAG_DIRECTIVE, tk::TAG_DIRECTIVE, tk::TAG_DIRECTIVE, tk::DOCUMENT_START);
-doc_start_harness!(c16_docstart_tag_without_docstart, true, tk::TAG_DIRECTIVE, tk::SCALAR);
-doc_start_harness!(c16_docstart_directive_then_eof, true, tk::VERSION_DIRECTIVE);
+// token KINDS and directive handles (index into DIRECTIVES: 0 !a!, 1 !b!, 2 !!, 3 !) are concrete per
+// harness (symbolic handles make every map operation a symbolic string comparison inside the
+// directive loop); keep_tags and therefore the table left by earlier documents are symbolic.
+doc_start_harness!(c16_docstart_stream_end, true, [tk::STREAM_END], []);
+doc_start_harness!(c16_docstart_skip_doc_ends, false, [tk::DOCUMENT_END, tk::DOCUMENT_END, tk::STREAM_END], []);
+doc_start_harness!(c16_docstart_implicit_scalar, true, [tk::SCALAR], []);
+doc_start_harness!(c16_docstart_explicit, true, [tk::DOCUMENT_START, tk::SCALAR], []);
+doc_start_harness!(c16_docstart_explicit_required_missing, false, [tk::SCALAR], []);
+doc_start_harness!(c16_docstart_version, true, [tk::VERSION_DIRECTIVE, tk::DOCUMENT_START], []);
+doc_start_harness!(c16_docstart_two_versions, true, [tk::VERSION_DIRECTIVE, tk::VERSION_DIRECTIVE, tk::DOCUMENT_START], []);
+doc_start_harness!(c16_docstart_two_tags, true, [tk::TAG_DIRECTIVE, tk::TAG_DIRECTIVE, tk::DOCUMENT_START], [1, 2]);
+doc_start_harness!(c16_docstart_two_tags_same_handle, true, [tk::TAG_DIRECTIVE, tk::TAG_DIRECTIVE, tk::DOCUMENT_START], [1, 1]);
+doc_start_harness!(c16_docstart_redeclare_kept_handle, true, [tk::TAG_DIRECTIVE, tk::TAG_DIRECTIVE, tk::DOCUMENT_START], [0, 3]);
+doc_start_harness!(c16_docstart_tag_then_version, false, [tk::TAG_DIRECTIVE, tk::VERSION_DIRECTIVE, tk::DOCUMENT_START], [1]);
+doc_start_harness!(c16_docstart_three_tags, true, [tk::TAG_DIRECTIVE, tk::TAG_DIRECTIVE, tk::TAG_DIRECTIVE, tk::DOCUMENT_START], [2, 1, 3]);
+doc_start_harness!(c16_docstart_tag_without_docstart, true, [tk::TAG_DIRECTIVE, tk::SCALAR], [1]);
+doc_start_harness!(c16_docstart_directive_then_eof, true, [tk::VERSION_DIRECTIVE], []);
 
 /// C15: the end of a document resets the per-document parser state: handles are dropped unless
 /// keep_tags; after an explicit '...' the next document may start implicitly, otherwise a directive
 /// is an error; the state stack is empty.
 fn doc_end_scenario(kinds: &[u8]) {
-    let (mut p, _payload) = scenario_parser(kinds, State::DocumentEnd);
+    let (mut p, _payload) = scenario_parser(kinds, &[], State::DocumentEnd);
     p.tags.insert(String::from("!a!"), String::from("p1:"));
     p.tags.insert(String::from("!!"), String::from("p3:"));
     let abs0 = abs_of(p.state, &p.states);
